@@ -92,6 +92,9 @@ func main() {
 			{"x-twice", "write:x;write:y", "xy"},
 			{"5k", "write:5000xt", big},
 			{"5k-flush-x", "write:5000xt;flush;write:x", big + "x"},
+			// the same bytes through the writer's optional methods
+			{"x-writestring", "wstr:x", "x"},
+			{"5k-copy-x", "copy:5000xt;write:x", big + "x"},
 		} {
 			for _, e := range []bool{false, true} {
 				sc := fmt.Sprintf("status:%d", w)
